@@ -638,6 +638,10 @@ fn replay_sweep_hunk_text() {
         let want_old = if nold == 0 { os as isize } else { os as isize - 1 };
         let want_new = if nnew == 0 { ns as isize } else { ns as isize - 1 };
         assert!(h.remove.target_line == want_old && h.add.target_line == want_new, "start lines: {:?}", shown);
+        // context counts: leading / trailing runs of context lines (all-context hunks count everything as leading)
+        let pre = ops.iter().take_while(|&&o| o == b' ').count();
+        let suf = if pre == k { 0 } else { ops.iter().rev().take_while(|&&o| o == b' ').count() };
+        assert!(h.prefix_context == pre && h.suffix_context == suf, "context counts {}/{} instead of {}/{}: {:?}", h.prefix_context, h.suffix_context, pre, suf, shown);
     }
 }
 
